@@ -3,13 +3,14 @@
 # worktree of /repo and run ./check <prop> there (VERIF_REPO), then remove the worktree.
 # Extra args go to ./check (e.g. --tier thorough --only TestC02Cmap); PROP=Cxx overrides the property.
 set -u
+home=${VERIF_HOME:-/verif}
 sid=$1; shift
 prop=${PROP:-${sid%%-*}}
 wt=/tmp/sr-$sid-$$
 git -C /repo worktree add -q --detach $wt HEAD || exit 2
-( cd $wt && git apply /verif/seeded/$sid/patch.diff ) || { echo "patch does not apply"; git -C /repo worktree remove --force $wt; exit 3; }
+( cd $wt && git apply $home/seeded/$sid/patch.diff ) || { echo "patch does not apply"; git -C /repo worktree remove --force $wt; exit 3; }
 export GOFLAGS=-mod=mod GOPROXY=off GOSUMDB=off GOTOOLCHAIN=local
-( cd /verif && VERIF_REPO=$wt ./check $prop "$@" )
+( cd $home && VERIF_REPO=$wt ./check $prop "$@" )
 rc=$?
 git -C /repo worktree remove --force $wt; rm -rf $wt; git -C /repo worktree prune
 echo "seedrun $sid rc=$rc"
